@@ -212,7 +212,7 @@ def cases(draw):
     for i in range(n):
         t = draw(st.one_of(st.integers(MS_LO, MS_HI), st.integers(MS_LO // 1000, MS_HI // 1000).map(lambda x: x * 1000)))
         ev.append([draw(ids()), t, draw(coord(-90, 90)), draw(coord(-180, 180)), draw(coord(-5, 700)), draw(coord(-2, 10))])
-    c = {"events": ev, "catalog_id": draw(st.one_of(st.integers(0, 5), st.integers(0, 10**6))),
+    c = {"events": ev, "catalog_id": draw(st.one_of(st.integers(0, 5), st.integers(0, 10**6), st.sampled_from([2**53 + 1, 2**62 + 3, 2**63 - 1, 2**31, 2**32 + 1]))),
          "name": draw(st.sampled_from(["cat", "my catalog", "ucerf3-landers", "x,y", ""])) or "cat",
          "header": draw(st.booleans()), "append": draw(st.booleans())}
     if draw(st.integers(0, 2)) == 0:
